@@ -18,7 +18,7 @@ EXPLANATION = (
     "Register decoders: every returned path of _deserialize_register/_deserialize_register3d depends on name, x, y(, z) of the qubit entries. "
     "SWAP also covers FIELD-ARG: an argument naming field t of a serialisable dataclass is never bound to a parameter that is a different field of the same class. "
     "REFLECT: every private class-level attribute is read somewhere under exactly its name (attribute load or getattr constant), and every name read reflectively with a fallback is declared by some class. "
-    "SHARED: no method assigns a class attribute (cls.x / Type.x / type(self).x), no class-level mutable literal, no mutable default argument is written through. "
+    "SHARED also rejects one mutable program object replicated under many keys / slots (dict.fromkeys(keys, Obj()), [Obj()] * n). SHARED: no method assigns a class attribute (cls.x / Type.x / type(self).x), no class-level mutable literal, no mutable default argument is written through. "
     "NOT decided: equality of decoded objects (runtime)."
 )
 ASSUMPTIONS = ["the serialisers are reflective (dataclasses.fields); the rule checks the declared fields, the optional tables and the schemas that this reflection relies on"]
